@@ -33,6 +33,7 @@ def make_instances(ctx):
         c = len(i["states"][vv])
         qs.append({"t": "query", "q": [a], "ev": {}, "virt": {vv: _vw(rng, c)}, "do": {}})
         qs.append({"t": "query", "q": [a], "ev": {}, "virt": {vv: _vw(rng, c)}, "do": {}})     # same variable, other likelihood
+        qs.append({"t": "query", "q": [a], "ev": ev_for([a, vv], 1), "virt": {vv: _vw(rng, c)}, "do": {}})   # hard + virtual evidence together
         qs.append({"t": "map", "q": [b2], "ev": ev_for([b2], 1), "virt": {}, "do": {}})
         qs.append({"t": "map", "q": [a], "ev": {}, "virt": {vv: _vw(rng, c)}, "do": {}})
         # a do-question whose query variable is neither the do-variable nor one of its parents
@@ -44,7 +45,7 @@ def make_instances(ctx):
 
 
 def run(ctx):
-    ctx.rule = ("TLC enumerates every history of 3 questions (7-question palette per instance: posterior tables with hard / virtual evidence incl. "
+    ctx.rule = ("TLC enumerates every history of 3 questions (8-question palette per instance: posterior tables with hard / virtual evidence incl. "
                 "the same soft-evidence variable with two likelihoods, MAP, do-queries) to one engine; each history is replayed on shared VE / BP / "
                 "CausalInference engines under concretisations {str, int, tuple variable names} x state-name kinds x insertion orders x hash seeds x "
                 "{numpy, torch}. distinct = (instance, history); every history is non-trivial (3 questions).")
@@ -162,7 +163,8 @@ def replay_gen(payload):
             ncalls += 1
             try:
                 if q["t"] == "query":
-                    kw = dict(variables=qv, evidence=evd if evd else None, show_progress=False)
+                    # (the caller-owned dictionary itself is handed over, also when it is empty)
+                    kw = dict(variables=qv, evidence=evd if (evd or si % 2) else None, show_progress=False)
                     if engk != "ci":
                         kw["joint"] = True
                         if vl:
